@@ -274,7 +274,9 @@ class HTTP(BaseComponent):
             sp = self.protocol
 
             if rp[0] != sp[0]:
-                # the major HTTP version differs
+                # the major HTTP version differs; answer in a version this
+                # server speaks, not in the one it has just refused
+                res.protocol = 'HTTP/{:d}.{:d}'.format(*sp)
                 return self.fire(httperror(req, res, 505))
 
             res.protocol = 'HTTP/{:d}.{:d}'.format(*min(rp, sp))
